@@ -93,6 +93,8 @@ def const_eval(node: ast.AST, env: dict[str, object]) -> object:
                 ast.Add: lambda a, b: a + b,
                 ast.Sub: lambda a, b: a - b,
                 ast.Mult: lambda a, b: a * b,
+                ast.Pow: lambda a, b: a**b if 0 <= b <= 64 else (_ for _ in ()).throw(ValueError()),
+                ast.FloorDiv: lambda a, b: a // b if b else (_ for _ in ()).throw(ValueError()),
             }
             f = ops.get(type(node.op))
             if f:
